@@ -72,8 +72,8 @@ def main():
         tot_mut += sum(1 for c in cases[pid] if c['kind'] == 'mutant'); tot_eq += len(eqs)
         out.append('')
         if seeds[pid]:
-            out.append('| seeded change | what it does | confirmed | reported by |')
-            out.append('|---|---|---|---|')
+            out.append('| seeded change | what it does | confirmed | reported by (final checker) | round 2 only: reported by the checker as it was before anyone looked at the seed |')
+            out.append('|---|---|---|---|---|')
             for m in seeds[pid]:
                 d = m.get('detection', {})
                 title = ''
@@ -89,13 +89,27 @@ def main():
                     rep = ', '.join(f'`{r}`' for r in d.get('rules_reporting', []))
                 else:
                     rep = '**missed**'
-                out.append(f'| {m["seed"]} | {title[:150]} | {"yes" if m.get("confirmed") else "no"} | {rep} |')
+                b = m.get('detection_before_round2_rules')
+                if b is None:
+                    base = ''
+                elif b.get('detected'):
+                    base = ', '.join(f'`{r}`' for r in b.get('rules_reporting', []))
+                else:
+                    base = 'missed'
+                out.append(f'| {m["seed"]} | {title[:150]} | {"yes" if m.get("confirmed") else "no"} | {rep} | {base} |')
             out.append('')
     out.append(f'Totals: {tot_rules} rules, {tot_ob} obligations on HEAD; {tot_mut} self-test mutants, {tot_eq} equivalent refactorings.')
     allm = [m for v in seeds.values() for m in v]
     conf = [m for m in allm if m.get('confirmed')]
     det = [m for m in conf if m.get('detection', {}).get('detected')]
     out.append(f'Seeded changes: {len(allm)} kept, {len(conf)} confirmed, {len(det)} of the confirmed ones reported by at least one registered check.')
+    r2 = [m for m in conf if 'detection_before_round2_rules' in m]
+    r2b = [m for m in r2 if m['detection_before_round2_rules'].get('detected')]
+    r2f = [m for m in r2 if m.get('detection', {}).get('detected')]
+    r1 = [m for m in conf if 'detection_before_round2_rules' not in m]
+    r1f = [m for m in r1 if m.get('detection', {}).get('detected')]
+    out.append(f'Round 1: {len(r1)} confirmed, {len(r1f)} reported by the final checker (many of its rules were written after reading the round-1 misses).')
+    out.append(f'Round 2 (fresh seeds): {len(r2)} confirmed; {len(r2b)} reported by the checker frozen before the seeds were looked at (the unbiased figure), {len(r2f)} by the final checker.')
     out.append('')
     d = open(f'{V}/DESIGN.md').read()
     head = d.split(MARK)[0].rstrip() + '\n\n'
